@@ -182,11 +182,12 @@ def check_shared(ctx, prog):
     wr = ctx.need_fn(prog, "ncbbio_sharedfile_pwrite")
     bad = None
     n = 0
-    for nch in (1, 2, 3):
+    deep = ctx.tier == "thorough"
+    for nch in ((1, 2, 3, 4) if deep else (1, 2, 3)):
         for ch in range(nch):
-            for bs in (8,):
-                for offset in range(0, 20):
-                    for count in range(0, 26):
+            for bs in ((8, 5) if deep else (8,)):
+                for offset in range(0, 34 if deep else 20):
+                    for count in range(0, 40 if deep else 26):
                         res = {}
                         for nm, fn in (("pread", rd), ("pwrite", wr)):
                             try:
@@ -216,12 +217,12 @@ def check_shared(ctx, prog):
                                 if why is None and len(got) != count:
                                     why = "%d bytes transferred for a request of %d" % (len(got), count)
                             if why and not bad:
-                                bad = (fn, nch, ch, offset, count, why)
+                                bad = (fn, nch, ch, offset, count, "%d-byte blocks: %s" % (bs, why))
                         if res["pread"] != res["pwrite"] and not bad:
-                            bad = (rd, nch, ch, offset, count, "pread and pwrite issue different (buffer, length, file offset) sequences: %s vs %s" % (res["pread"][:4], res["pwrite"][:4]))
+                            bad = (rd, nch, ch, offset, count, "%d-byte blocks: " % bs + "pread and pwrite issue different (buffer, length, file offset) sequences: %s vs %s" % (res["pread"][:4], res["pwrite"][:4]))
     if bad:
         fn, nch, ch, offset, count, why = bad
-        ctx.fail("R8.shared", fn.name, "blockmap", "with %d channel(s), channel %d, 8-byte blocks, offset %d, count %d: %s" %
+        ctx.fail("R8.shared", fn.name, "blockmap", "with %d channel(s), channel %d, offset %d, count %d, %s" %
                  (nch, ch, offset, count, why), fn=fn, line=fn.line, inst="sharedfile")
     else:
         ctx.ok("R8.shared", "sharedfile", "%d (function, channels, channel, offset, count) cells: every logical byte moved once at its "
